@@ -174,6 +174,15 @@ def c20(prop, tier, seed):
 CHECKS["C20"] = c20
 
 
+def simc(prop, tier, seed):
+    import simcheck
+    return simcheck.check_sim(prop, tier, seed)
+
+
+for _p in ("C14", "C15", "C16", "C17", "C18", "C19"):
+    CHECKS[_p] = simc
+
+
 FW_TEXT = ("TLC checks the property invariant on mechanism || observer exhaustively within small constants; "
            "every behaviour of a smaller configuration is replayed on the real code in lock-step (all hook lines and the "
            "full internal snapshot compared), and seeded random executions of the real code are validated line by line "
@@ -216,7 +225,20 @@ META["C20"] = dict(
     design_ref="DESIGN.md section 6/C20",
     technique="TLA+ lifecycle/translation spec (Ffi.tla) checked by TLC; recorded calls of the real C API validated against it")
 
+SIM_TEXT = ("TLC checks the observer clauses of the property on the simulator mechanism (Simulator.tla: pick_next priorities, "
+            "timer firing, blocking, network stack, a bounded framework oracle) exhaustively within small constants; seeded runs of "
+            "the real simulator (random traces, delays, machines, stop settings, filters) are recorded through add-only hooks and "
+            "every record is folded through the same observer (SimObs) by TLC; the verdict is the set of failing clauses on real executions")
+SIM_NOTE = ("trusted: TLC, the hook records, sim_driver; bounded: <= 2-4 packets, <= 2 machines per side, oracle budget <= 4; "
+            "the random part is sampling; known findings are matched by clause:signature")
+for _p in ("C14", "C15", "C16", "C17", "C18", "C19"):
+    META[_p] = dict(engine="simulator", level="model_checking", text=SIM_TEXT, note=SIM_NOTE,
+                    design_ref="DESIGN.md section 6/" + _p,
+                    technique="TLA+ mechanism (Simulator.tla) + observer (SimObs.tla) checked by TLC; recorded executions of the real simulator validated against the observer (SimTrace.tla)")
+
 ENGINES = [
+    dict(name="simulator", path="/verif/spec/Simulator.tla", serves_properties=["C14", "C15", "C16", "C17", "C18", "C19"],
+         kind_free_text="TLA+ mechanism + observer of the simulator, TLC exhaustive and trace validation, sim_driver on the real simulator"),
     dict(name="ffi", path="/verif/spec/Ffi.tla", serves_properties=["C20"],
          kind_free_text="TLA+ spec of the C API, TLC, ffi_driver on the real extern functions"),
     dict(name="sampling", path="/verif/spec/Sampling.tla", serves_properties=["C06"],
